@@ -87,7 +87,9 @@ func runC13(r *Run) {
 	}
 	r.Check(okCons, "C13.consume", fname(hb), "the consumed total is booked on every path after a successful pull", "ConsumeRewards reached before every return once PullRewards succeeded", "a path credits rewards without booking them against the year's supply: later blocks pull from a supply that is already spent", p.pos(hb.Pos()))
 	// each credited amount feeds the consumed total
-	total := func(v ssa.Value) bool { return cons != nil && derivesFromAccumulated(hb, cons.Call.Args[1], func(y ssa.Value) bool { return y == v }) }
+	total := func(v ssa.Value) bool {
+		return cons != nil && derivesFromAccumulated(hb, cons.Call.Args[1], func(y ssa.Value) bool { return y == v })
+	}
 	for _, c := range allCalls(hb, "(*data/rewards.RewardStore).AddToAddress") {
 		amt := c.Call.Args[3]
 		r.Check(total(amt), "C13.consume", fname(hb), "the amount credited to a validator is part of the consumed total", "totalConsumed = totalConsumed.Plus(amount) with the credited datum", "a validator is credited an amount that is not added to the consumed total", p.ipos(c))
@@ -141,7 +143,9 @@ func runC13(r *Run) {
 			return
 		}
 		nTL++
-		guard := condEdges(ay, func(cond ssa.Value, _ *ssa.If) int { return boolCond(cond, func(y ssa.Value) bool { return y == ssa.Value(ay.Params[3]) }) })
+		guard := condEdges(ay, func(cond ssa.Value, _ *ssa.If) int {
+			return boolCond(cond, func(y ssa.Value) bool { return y == ssa.Value(ay.Params[3]) })
+		})
 		if len(guard) == 0 || reachWithout(ay, guard)[st.Block()] || !derivesFrom(st.Val, func(y ssa.Value) bool { return strings.HasSuffix(pathOf(y).FieldString(), "Distributed") }) {
 			okTL = false
 		}
